@@ -1,6 +1,6 @@
 (* C05 — shared-memory regions arrive with identical contents (model: Shm.v; order inside a message: C04). *)
 From Coq Require Import ZArith List Bool.
-From IPC Require Import Shm ShmProofs.
+From IPC Require Import U64 Params Codec Shm ShmProofs.
 Import ListNotations.
 Open Scope Z_scope.
 
@@ -34,6 +34,11 @@ Theorem C05_balanced : forall w bytes, let '(w1, r, _) := from_bytes w bytes in
   maps (fst (drop w1 r)) = maps w /\ fds (fst (drop w1 r)) = fds w.
 Proof. exact create_drop_balanced. Qed.
 Print Assumptions C05_balanced.
+
+(* the empty-region marker of the byte-level model is the one written and tested by the source (GENERATED) *)
+Theorem C05_sentinel_tied : Codec.usize_max = EMPTY_REGION_SENTINEL.
+Proof. reflexivity. Qed.
+Print Assumptions C05_sentinel_tied.
 
 Example C05_ex :
   let '(w1, r, c1) := from_bytes w0 [7; 8; 9] in let '(w2, r2, c2) := clone w1 r in let '(w3, r3, c3) := receive w2 r2 in
